@@ -26,10 +26,17 @@ def sign_pattern(g, h):
 # ---------------------------------------------------------------------------------------------------
 
 
+# lines given by explicit coefficients of size 10 .. 1000 that are not small integers (the determinant of the line pair is
+# then rounding noise times the cube of the scale: the library has to normalise before it decides "degenerate")
+BIG_LINES = [(12.5, -7.25, 33.1), (9.7, 14.4, -21.9), (100.0, 1.0, -37.0), (-250.5, 80.25, 3.0), (1000.0, 999.0, 1.0), (64.1, -0.3, 12.0), (0.0, 31.7, -45.2), (77.7, 0.0, 13.1)]
+
+
 def enum_lines(tier, seed):
     L = lattice(3, 3 if tier == "thorough" else 2)
     for g in L:
         yield (g,)
+    for i in range(len(BIG_LINES)):
+        yield (("big", i),)
 
 
 @family("C15", "from_lines", enum_lines)
@@ -38,6 +45,22 @@ def case_lines(ctx, cfg):
 
     (g,) = cfg
     g = tuple(g)
+    if g[0] == "big":
+        g = BIG_LINES[g[1]]
+        for h in BIG_LINES + [(1.0, 2.0, 3.0), (0.0, 0.0, 1.0)]:
+            if h == g:
+                continue
+            for a, b in ((g, h), (tuple(-x for x in g), tuple(2 * x for x in h))):
+                ctx.state(("big", g, h, a[0] < 0))
+                c, e = ctx.call(G.Conic.from_lines, G.Line(np.array(a)), G.Line(np.array(b)))
+                deg, e2 = ctx.call(lambda: c.is_degenerate) if e is None else (None, e)
+                comp, e3 = ctx.call(lambda: c.components) if e2 is None else (None, e2)
+                ctx.trace(3)
+                inputs = {"g": a, "h": b}
+                if e3 is not None or not bool(deg) or len(comp) != 2 or not unordered_pair_eq((comp[0].array, comp[1].array), (np.array(g), np.array(h))):
+                    ctx.fail(f"from_lines:large-coefficients:{type(e3).__name__ if e3 is not None else ('is_degenerate' if not bool(deg) else 'components')}", "from_lines / is_degenerate / components", inputs, [g, h], e3 if e3 is not None else [bool(deg)] + [x.array for x in comp])
+                    return
+        return
     M_PROJ = np.array([[2.0, 1, 0], [0, 1, 1], [1, 1, 1]])
     T_PROJ = G.Transformation(M_PROJ)
     MIT_PROJ = np.linalg.inv(M_PROJ).T
